@@ -42,6 +42,15 @@ def _init_attrs():
         return {}
 
 
+def _pinned_assigned(cls_name):
+    """attribute names assigned anywhere in the class on the pinned tree (from the recorded local/attribute vocabulary)"""
+    try:
+        d = json.load(open(os.path.join(VERIF, "known_functions.json")))
+        return set(d.get("class_attrs_assigned", {}).get(cls_name, []))
+    except Exception:
+        return set()
+
+
 def _init_params():
     try:
         return json.load(open(os.path.join(VERIF, "known_functions.json"))).get("init_params", {})
@@ -206,9 +215,9 @@ def run(ctx):
                 # global, or a local defined outside the enclosing loop) whose entry D[K] is also read back in the same
                 # function (`if K not in D`, `D[K]`, `D.get(K)`, try/except KeyError) is a memo.
                 for n in astx.walk_fn(f.node):
-                    if not (isinstance(n, ast.Assign) and len(n.targets) == 1 and isinstance(n.targets[0], ast.Subscript)):
+                    if not (isinstance(n, ast.Assign) and any(isinstance(t_, ast.Subscript) for t_ in n.targets)):
                         continue
-                    tgt = n.targets[0]
+                    tgt = [t_ for t_ in n.targets if isinstance(t_, ast.Subscript)][0]   # `v = D[k] = value` stores into D as well
                     D = txt(tgt.value)
                     base = tgt.value
                     persistent = False
@@ -220,6 +229,11 @@ def run(ctx):
                     elif isinstance(base, ast.Name) and base.id in sc.assigns and len(sc.assigns[base.id]) == 1:
                         ddef = sc.assigns[base.id][0]
                         persistent = any(not par.inside(ddef, l) for l in par.loops_of(n)) and txt(ddef.value) in ("{}", "dict()")
+                    elif isinstance(base, ast.Name) and not sc.is_local(base.id) and f.parent is not None and par.loops_of(n):
+                        # a table of the enclosing function, filled from a loop of a nested function / generator
+                        psc = Scope(f.parent.node)
+                        pdefs = psc.assigns.get(base.id, [])
+                        persistent = len(pdefs) == 1 and txt(pdefs[0].value) in ("{}", "dict()")
                     if not persistent:
                         continue
                     ktxt = txt(tgt.slice)
@@ -252,6 +266,9 @@ def run(ctx):
                         for l in par.loops_of(n):
                             if not par.inside(ddef, l):
                                 ind |= astx.names_in(l.target)
+                    if isinstance(base, ast.Name) and base.id not in sc.assigns and f.parent is not None:
+                        for l in par.loops_of(n):
+                            ind |= astx.names_in(l.target)      # closure table: every loop of the nested function re-uses it
                     params = set(p for p in f.params if p not in ("self", "cls"))
                     deps = rules.names_closure(sc, n.value, stop=ind | key_names | params, ignore_ctx=list(par.ancestors(n)))
                     if isinstance(base, ast.Name) and base.id in deps:
@@ -267,6 +284,30 @@ def run(ctx):
                     ann = {x.arg: (txt(x.annotation) if x.annotation is not None else "") for x in a_.posonlyargs + a_.args}
                     mutable_keys = [] if isinstance(key_r, ast.JoinedStr) else [k for k in key_direct if k in params and (any(h in ann.get(k, "").lower() for h in ("graph", "list", "dict", "set"))
                                                                               or k.lower() in ("g", "h") or any(h in k.lower() for h in MUTABLE_PARAM_HINTS))]
+                    # keys computed by a digest: look at the key expression and INTO repo helpers it calls
+                    DIGESTS = ("weisfeiler_lehman_graph_hash", "weisfeiler_lehman_subgraph_hashes", "hash", "md5", "sha1", "sha256", "blake2b", "crc32",
+                               "degree_histogram", "could_be_isomorphic", "fast_could_be_isomorphic", "faster_could_be_isomorphic")
+
+                    def _digest_in(expr_, depth=0):
+                        for x_ in ast.walk(expr_):
+                            if isinstance(x_, ast.Call):
+                                nm_ = x_.func.attr if isinstance(x_.func, ast.Attribute) else (x_.func.id if isinstance(x_.func, ast.Name) else "")
+                                if nm_ in DIGESTS:
+                                    return nm_
+                                callee = rules.resolve_call(prog, f, x_) if depth < 2 else None
+                                if callee is not None and callee is not f:
+                                    for st_ in callee.body:
+                                        d_ = _digest_in(st_, depth + 1)
+                                        if d_:
+                                            return d_
+                        return None
+                    dg = _digest_in(key_r)
+                    if dg and (deps & params):
+                        found = True
+                        o.violated(f, n, f"S2: memo table `{D}` is keyed through the digest `{dg}` of {sorted(deps & params)}: a digest is not injective (e.g. the Weisfeiler-Lehman hash cannot "
+                                         "tell K3,3 from the triangular prism), so the entry computed for one input is returned for a different one - the result depends on call history",
+                                   sure=True)
+                        continue
                     if missing or weak:
                         found = True
                         why = f"lacks {missing}" if missing else f"contains {weak} only through a derived summary (`{txt(key_r)[:60]}`), which does not determine it"
@@ -296,6 +337,85 @@ def run(ctx):
                     if nm in glob and not scf.is_local(nm):
                         found = True
                         o.violated(f, n, f"S1: module-level container `{nm}` is written by `{f.qualname}`: state survives between calls and is shared by every caller in the process")
+        # ---- S4 / S5: single-slot caches and derived attributes that did not exist on the pinned tree
+        pinned_attrs = _init_attrs()
+        for mi in mods:
+            for ci in mi.classes.values():
+                known_attrs = set()
+                for c2 in prog.mro(ci):
+                    known_attrs |= set(pinned_attrs.get(c2.name, []))
+                if ci.name not in pinned_attrs and not known_attrs:
+                    continue
+                # attributes assigned anywhere in the class that the pinned constructor did not know
+                assigned = {}
+                for m in ci.methods.values():
+                    for n in astx.walk_fn(m.node):
+                        if isinstance(n, (ast.Assign, ast.AnnAssign)) and n.value is not None:
+                            for t_ in (n.targets if isinstance(n, ast.Assign) else [n.target]):
+                                a = astx.self_attr(t_)
+                                if a is not None:
+                                    assigned.setdefault(a, []).append((m, n))
+                new_attrs = {a: v for a, v in assigned.items() if a not in known_attrs and a not in _pinned_assigned(ci.name)}
+                for a, sites in new_attrs.items():
+                    # S4: lazily filled slot handed out by reference:  if self._x is None: self._x = <fresh>; return self._x
+                    for m in ci.methods.values():
+                        rets = [r for r in astx.walk_fn(m.node) if isinstance(r, ast.Return) and astx.self_attr(r.value) == a]
+                        fills = [n for (mm, n) in sites if mm is m and not (isinstance(n.value, ast.Constant) and n.value.value is None)]
+                        if not rets or not fills:
+                            continue
+                        for caller in prog.all_functions():
+                            if caller.module.relpath not in files and caller.cls is not ci:
+                                continue
+                            csc = Scope(caller.node)
+                            for c in astx.walk_fn(caller.node):
+                                if isinstance(c, ast.Call) and isinstance(c.func, ast.Attribute) and c.func.attr == m.name and rules.resolve_call(prog, caller, c) is m:
+                                    st_ = csc.parents.stmt_of(c)
+                                    if isinstance(st_, (ast.Assign, ast.AnnAssign)) and st_.value is c:
+                                        tgt = st_.targets[0] if isinstance(st_, ast.Assign) else st_.target
+                                        if isinstance(tgt, ast.Name):
+                                            effs = [e for e in rules.effects_on(prog, caller, [tgt.id], scope=csc) if e.root == tgt.id and e.kind != "rebind"]
+                                            if effs:
+                                                found = True
+                                                o.violated(caller, effs[0].node, f"S4: `{ci.name}.{m.name}` now returns its cached `self.{a}` by reference and `{caller.qualname}` modifies the returned "
+                                                                                  f"object in place ({effs[0].kind}): the cache is corrupted, later calls get the modified value", sure=True)
+                    # S5: derived from configuration that can be replaced through a setter, never refreshed
+                    for (m, n) in sites:
+                        srcs = {x.attr for x in ast.walk(n.value) if isinstance(x, ast.Attribute) and isinstance(x.value, ast.Name) and x.value.id == "self" and x.attr != a}
+                        # ... and through the locals the value is computed from (a spliced helper leaves `self.a = tmp`)
+                        try:
+                            msc = Scope(m.node)
+                            dep_names = set(rules.names_closure(msc, n.value)) | astx.names_in(n.value)
+                            for x in astx.walk_fn(m.node):
+                                tgt_names = set()
+                                src_expr = None
+                                if isinstance(x, (ast.Assign, ast.AnnAssign)) and x.value is not None:
+                                    tgt_names = {y.id for t2 in (x.targets if isinstance(x, ast.Assign) else [x.target]) for y in ast.walk(t2) if isinstance(y, ast.Name)}
+                                    src_expr = x.value
+                                elif isinstance(x, ast.For):
+                                    tgt_names = astx.names_in(x.target)
+                                    src_expr = x.iter
+                                if src_expr is not None and tgt_names & dep_names:
+                                    srcs |= {y.attr for y in ast.walk(src_expr) if isinstance(y, ast.Attribute) and isinstance(y.value, ast.Name) and y.value.id == "self" and y.attr != a}
+                        except Exception:
+                            pass
+                        # through a helper call that takes self.<b> as an argument
+                        for b in sorted(srcs):
+                            prop_name = b.lstrip("_")
+                            setter = ci.methods.get(prop_name + ".setter") or next((c2.methods.get(prop_name + ".setter") for c2 in prog.mro(ci) if c2.methods.get(prop_name + ".setter")), None)
+                            if setter is None:
+                                continue
+                            refreshed = any(astx.self_attr(t_) == a for x in astx.walk_fn(setter.node) if isinstance(x, (ast.Assign, ast.AnnAssign))
+                                            for t_ in (x.targets if isinstance(x, ast.Assign) else [x.target]))
+                            calls_refresh = any(isinstance(x, ast.Call) and isinstance(x.func, ast.Attribute) and astx.self_attr(x.func) is None and isinstance(x.func.value, ast.Name)
+                                                and x.func.value.id == "self" and prog.method(ci, x.func.attr) is not None
+                                                and any(astx.self_attr(t2) == a for y in astx.walk_fn(prog.method(ci, x.func.attr).node) if isinstance(y, (ast.Assign, ast.AnnAssign))
+                                                        for t2 in (y.targets if isinstance(y, ast.Assign) else [y.target])) for x in astx.walk_fn(setter.node))
+                            readers = [mm for mm in ci.methods.values() if mm is not m and mm.name != "__init__" and
+                                       any(astx.self_attr(x) == a and isinstance(x.ctx, ast.Load) for x in astx.walk_fn(mm.node) if isinstance(x, ast.Attribute))]
+                            if not refreshed and not calls_refresh and readers and m.name == "__init__":
+                                found = True
+                                o.violated(m, n, f"S5: `self.{a}` is a snapshot derived from `self.{b}` when the object is built; `{ci.name}.{prop_name}` has a public setter that does not refresh it, "
+                                                 f"and `{readers[0].qualname}` reads the snapshot: after the {prop_name} is replaced (or edited in place) the object keeps working with the old one", sure=True)
         if not found:
             o.holds(None, None, f"{n_classes} classes, {n_funcs} functions, {n_memo} memo stores in {len(mods)} anchor files: no shared class state, complete memo keys, "
                                 "no memoised mutable argument", construct="state-leak scan of " + ", ".join(sorted(m.relpath for m in mods)))
